@@ -19,6 +19,7 @@ CONSTANTS
     HonourAllowInvalid = TRUE
     RenameBeforeCommit = TRUE
     CleanupScansTemps = TRUE
+    RestoreMkdirOnlyIfParentMissing = FALSE
 INIT Init
 NEXT Next
 VIEW core
